@@ -119,7 +119,8 @@ def main():
     if H.args.replay:
         with open(H.args.replay) as fh:
             rec = json.load(fh)
-        reproduced, detail = confirm(H, rec["label"], rec["case"])
+        fn = confirm_order if rec["label"].startswith("D") else confirm
+        reproduced, detail = fn(H, rec["label"], rec["case"])
         print(("REPRODUCED: " if reproduced else "NOT REPRODUCED: ") + detail)
         return 1 if reproduced else 0
     first, last = c09.first_last()
